@@ -165,10 +165,35 @@ def _flattened(ctx, model, fname, cls, neutral, annihilator):
         annihilator is None or n_annih >= 1), loc,
         f"{n_append} append / {n_requeue} requeue path(s)" if n_append and
         n_requeue else f"{fname}: append or re-queue path missing")
-    # the work list starts as all terms
-    src = ast.unparse(fn).replace(" ", "")
-    ok = "queue=list(terms)" in src and "whilequeue:" in src and \
-        "item=queue.pop(0)" in src
+    # the work list starts as all terms and is processed until it is empty
+    U = lambda n: ast.unparse(n).replace(" ", "")      # noqa: E731
+    tparam = fn.args.args[0].arg
+    loops = [st for st in fn.body if isinstance(st, ast.While)]
+    ok = False
+    if len(loops) == 1:
+        w = loops[0]
+        t = U(w.test)
+        q = None
+        for cand in (t, ):
+            if isinstance(w.test, ast.Name):
+                q = w.test.id
+            elif t.startswith("len(") and t.rstrip(">0").rstrip("!=0").endswith(")"):
+                inner = w.test.left if isinstance(w.test, ast.Compare) else w.test
+                if isinstance(inner, ast.Call) and inner.args and isinstance(
+                        inner.args[0], ast.Name):
+                    q = inner.args[0].id
+        if q is None:
+            raise AnalysisError(f"{fname}: work-list loop test '{t}' not "
+                                "recognised")
+        inits = [st for st in fn.body if isinstance(st, ast.Assign)
+                 and U(st.targets[0]) == q and st.lineno < w.lineno]
+        init_ok = len(inits) == 1 and U(inits[0].value) in (
+            f"list({tparam})", f"deque({tparam})",
+            f"collections.deque({tparam})", f"[*{tparam}]")
+        first = w.body[0]
+        pop_ok = isinstance(first, ast.Assign) and U(first.value) in (
+            f"{q}.pop(0)", f"{q}.popleft()", f"{q}.pop()")
+        ok = init_ok and pop_ok
     ctx.ob(f"P/{fname}/worklist", ok, loc,
            "work list = all terms, processed front to back until empty" if ok else
            f"{fname}: work-list initialisation or loop changed")
